@@ -121,6 +121,15 @@ impl EventGen for ReuseElement {
         }
         pos.update_shape(&instance_element.name);
         pos.set_position_attrs(&mut instance_element);
+        if instance_element.name == "reuse" {
+            // The target is itself a `<reuse>` (`Position` has no notion of such a
+            // shape): pass the position on, for it to apply to its own instance.
+            for attr in ["x", "y"] {
+                if let Some(value) = reuse_element.get_attr(attr) {
+                    instance_element.set_attr(attr, &value);
+                }
+            }
+        }
 
         let res = if let (false, Some((start, end))) = (
             instance_element.is_empty_element(),
